@@ -47,6 +47,33 @@ theorem rndPos_congr (f : Fmt) (wf : f.WF) {a b a' b' : Nat} (ha : 0 < a) (hb : 
     (hr : a * b' = a' * b) : rndPos f a b = rndPos f a' b' :=
   Morlock.Model.Flt.rndPos_congr f wf.p_pos ha hb ha' hb' hr
 
+/-- **bridge**: `rnd` is the unsigned kernel `rndPos` applied to `|x|` with the sign put back; `ofME neg m e` is the
+rational `± m·2^e` in lowest terms (`ofME_spec`) -/
+theorem rnd_eq_some (f : Fmt) (x y : Q) :
+    rnd f x = some y ↔
+      (x.num = 0 ∧ y = ⟨0, 1⟩) ∨
+      (x.num ≠ 0 ∧ ∃ m e, rndPos f x.num.natAbs x.den = some (m, e) ∧ y = ofME (decide (x.num < 0)) m e) :=
+  rnd_eq_some_iff f x y
+
+theorem ofME_value (neg : Bool) (m : Nat) (e : Int) :
+    (ofME neg m e).Canon ∧ (ofME neg m e).num.natAbs * pd e = m * pn e * (ofME neg m e).den ∧
+    ((ofME neg m e).num < 0 ↔ (neg = true ∧ 0 < m)) ∧ ((ofME neg m e).num = 0 ↔ m = 0) :=
+  ofME_spec neg m e
+
+/-- … so `rndPos_spec`/`rndPos_nearest` read as a statement about `rnd`: for `x ≠ 0`, `rnd f x = some y` means that
+`y = ± m·2^e` (sign of `x`) for a normalised pair of the format and `|x|` is at least as close to `m·2^e` as to every
+number `m'·2^e'` of the format -/
+theorem rnd_nearest (f : Fmt) (wf : f.WF) {x y : Q} (hd : 0 < x.den) (h0 : x.num ≠ 0) (h : rnd f x = some y) :
+    ∃ m e, y = ofME (decide (x.num < 0)) m e ∧
+      y.Canon ∧ y.num.natAbs * pd e = m * pn e * y.den ∧ (y.num < 0 ↔ (x.num < 0 ∧ 0 < m)) ∧
+      m < 2 ^ f.p ∧ f.emin ≤ e ∧ e + ((f.p : Int) - 1) ≤ f.emax ∧ (2 ^ (f.p - 1) ≤ m ∨ e = f.emin) ∧
+      ∀ (m' : Nat) (e' : Int), m' < 2 ^ f.p → f.emin ≤ e' →
+        adiff (x.num.natAbs * pd e) (m * x.den * pn e) * pd e' ≤
+          adiff (x.num.natAbs * pd e') (m' * x.den * pn e') * pd e :=
+  Morlock.Model.Flt.rnd_nearest f wf.p_pos hd h0 h
+
+example : rnd f32 ⟨-1, 10⟩ = some (ofME true 13421773 (-27)) := by rfl
+
 /-! ## 2. No overflow below the threshold -/
 
 /-- `0 < x.den → |x| ≤ 2^emax → (rnd f x).isSome` -/
@@ -67,6 +94,30 @@ theorem rnd32_isSome_of_le (x : Q) (hd : 0 < x.den) (h : x.num.natAbs ≤ 2 ^ 12
 example : rnd f32 ⟨(2 ^ 24 - 1) * 2 ^ 104, 1⟩ = some ⟨(2 ^ 24 - 1) * 2 ^ 104, 1⟩ := by rfl
 example : rnd f32 ⟨(2 ^ 25 - 1) * 2 ^ 103 - 1, 1⟩ = some ⟨(2 ^ 24 - 1) * 2 ^ 104, 1⟩ := by rfl
 example : rnd f32 ⟨(2 ^ 25 - 1) * 2 ^ 103, 1⟩ = none := by rfl
+
+/-- **the overflow threshold, exactly**: `rnd f x = none ↔ |x| ≥ (2^p − 1/2)·2^(emax−p+1)`, the midpoint between the largest
+finite value and `2^(emax+1)` (the midpoint is a tie and goes to the even significand `2^p`, i.e. it overflows).
+With `E = emax − (p−1)`: `(2^(p+1) − 1)·2^E ≤ 2·|x|`, fractions cleared. -/
+theorem rnd_eq_none_iff (f : Fmt) (wf : f.WF) (x : Q) (hd : 0 < x.den) :
+    rnd f x = none ↔
+      (2 ^ (f.p + 1) - 1) * x.den * pn (f.emax - ((f.p : Int) - 1)) ≤
+        2 * x.num.natAbs * pd (f.emax - ((f.p : Int) - 1)) :=
+  Morlock.Model.Flt.rnd_eq_none_iff f wf x hd
+
+/-- float32: overflow iff `|x| ≥ (2^25 − 1)·2^103 = (2^24 − 1/2)·2^104`; float64: iff `|x| ≥ (2^54 − 1)·2^970` -/
+theorem rnd32_eq_none_iff (x : Q) (hd : 0 < x.den) :
+    rnd f32 x = none ↔ (2 ^ 25 - 1) * 2 ^ 103 * x.den ≤ x.num.natAbs :=
+  Morlock.Model.Flt.rnd32_eq_none_iff x hd
+set_option exponentiation.threshold 2048 in
+theorem rnd64_eq_none_iff (x : Q) (hd : 0 < x.den) :
+    rnd f64 x = none ↔ (2 ^ 54 - 1) * 2 ^ 970 * x.den ≤ x.num.natAbs :=
+  Morlock.Model.Flt.rnd64_eq_none_iff x hd
+
+example : rnd f32 ⟨(2 ^ 25 - 1) * 2 ^ 103, 1⟩ = none :=
+  (rnd32_eq_none_iff _ (by decide)).mpr (by decide +kernel)
+example : (rnd f32 ⟨2 * (2 ^ 25 - 1) * 2 ^ 103 - 1, 2⟩).isSome := by
+  rw [Option.isSome_iff_ne_none]; intro h
+  exact absurd ((rnd32_eq_none_iff _ (by decide)).mp h) (by decide +kernel)
 
 /-! ## 3. Representable values are fixed points -/
 
@@ -198,6 +249,26 @@ theorem sqrt_spec (f : Fmt) (wf : f.WF) {a b m : Nat} {e : Int} (ha : 0 < a) (hb
     m < 2 ^ f.p ∧ f.emin ≤ e ∧ e + ((f.p : Int) - 1) ≤ f.emax ∧ (2 ^ (f.p - 1) ≤ m ∨ e = f.emin) ∧
     SqrtHalfUlp a b m e ∧ (1 ≤ m → SqrtTie a b m e → m % 2 = 0) :=
   sqrtPos_spec f wf.p_pos ha hb h
+
+/-- **`sqrtPos` rounds to nearest** (this closes the slack of `sqrt_spec` at the lower edge of a binade, where the grid is finer
+below the result than above): the returned `m·2^e` is at least as close to `√(a/b)` as every number `m'·2^e'` of the format.
+`SqrtCloser a b Vn Vd Wn Wd` says `|√(a/b) − v| ≤ |√(a/b) − w|` for `v = Vn/Vd`, `w = Wn/Wd` without roots:
+`(w < v → (v+w)² ≤ 4a/b) ∧ (v < w → 4a/b ≤ (v+w)²)`, denominators cleared:
+`(Wn*Vd < Vn*Wd → (Vn*Wd + Wn*Vd)^2 * b ≤ 4*a*(Vd*Wd)^2) ∧ (Vn*Wd < Wn*Vd → 4*a*(Vd*Wd)^2 ≤ (Vn*Wd + Wn*Vd)^2 * b)`. -/
+theorem sqrtPos_nearest (f : Fmt) (wf : f.WF) {a b m : Nat} {e : Int} (ha : 0 < a) (hb : 0 < b)
+    (h : sqrtPos f a b = some (m, e)) (m' : Nat) (e' : Int) (hm' : m' < 2 ^ f.p) (he' : f.emin ≤ e') :
+    SqrtCloser a b (m * pn e) (pd e) (m' * pn e') (pd e') :=
+  Morlock.Model.Flt.sqrtPos_nearest f wf.p_pos ha hb h m' e' hm' he'
+
+/-- the auditor's witness: `a/b = ((5·2^24 − 3)/(5·2^23))²`, `√(a/b) = 2 − 0.6·2^-23`.  The model returns
+`(2^24 − 1)·2^-23` (0.4 ulp away).  The pair `(2^23, −22)` (= 2, 0.6 of the small ulp away) satisfies every conjunct of
+`sqrt_spec` but is rejected by `sqrtPos_nearest`: it is not closer than the format number `(2^24 − 1)·2^-23`. -/
+example : sqrtPos f32 ((5 * 2 ^ 24 - 3) ^ 2) (25 * 2 ^ 46) = some (16777215, -23) := by decide +kernel
+example : SqrtHalfUlp ((5 * 2 ^ 24 - 3) ^ 2) (25 * 2 ^ 46) (2 ^ 23) (-22) := by unfold SqrtHalfUlp; decide +kernel
+example : ¬ SqrtCloser ((5 * 2 ^ 24 - 3) ^ 2) (25 * 2 ^ 46) (2 ^ 23 * pn (-22)) (pd (-22)) (16777215 * pn (-23)) (pd (-23)) := by
+  unfold SqrtCloser; decide +kernel
+example : SqrtCloser ((5 * 2 ^ 24 - 3) ^ 2) (25 * 2 ^ 46) (16777215 * pn (-23)) (pd (-23)) (2 ^ 23 * pn (-22)) (pd (-22)) := by
+  unfold SqrtCloser; decide +kernel
 
 /-- `sqrt` is defined exactly for `0 ≤ x` (here: up to `4^emax`, which covers every finite number of the format) -/
 theorem sqrt_isSome (f : Fmt) (wf : f.WF) {x : Q} (hd : 0 < x.den) (h0 : 0 ≤ x.num)
